@@ -17,7 +17,11 @@
               | K!<a>!<fmt>!<plain>        from_point_record / convert of object a
               | A!<a>!<op>                 an operation (V / S / C as above) on object a
               | F!<a>!<s>!<plain>          a.copy_fields_from(s)
-     -> <step>;<step>...   step = ok|err:E @ <cols of object 0> # <cols of object 1> # ...   (every object after the step) *)
+     -> <step>;<step>...   step = ok|err:E @ <cols of object 0> # <cols of object 1> # ...   (every object after the step)
+
+   sf_routes <mask> <bytes> <route>,<route>,...      the read routes of one sub-field over packed bytes (sf_route)
+        route = arr | max | min | sum | cnt | uniq | bool | i<bits> | u<bits> | at<i> | c<op>_<c>   (op 0 < 1 <= 2 >= 3 > 4 == 5 !=)
+     -> <values>;<values>...    values = - (empty) | v,v,v | none (numpy refuses: reduction of nothing, index outside) *)
 open Model
 
 let rec pos_of_int n = if n = 1 then XH else if n land 1 = 0 then XO (pos_of_int (n lsr 1)) else XI (pos_of_int (n lsr 1))
@@ -98,8 +102,26 @@ let parse_wop t = match String.split_on_char '!' t with
   | ["F"; a; s; plain] -> WCopyFrom (nat_of_int (int_of_string a), nat_of_int (int_of_string s), parse_plain plain)
   | _ -> failwith "wop"
 
+let parse_route t =
+  let n = String.length t in
+  let tail k = String.sub t k (n - k) in
+  match t with
+  | "arr" -> RArray | "max" -> RMax | "min" -> RMin | "sum" -> RSum | "cnt" -> RCount | "uniq" -> RUnique | "bool" -> RBool
+  | _ when n > 2 && String.sub t 0 2 = "at" -> RItem (nat_of_int (int_of_string (tail 2)))
+  | _ when n > 1 && t.[0] = 'i' -> RInt (z_of_string (tail 1), true)
+  | _ when n > 1 && t.[0] = 'u' -> RInt (z_of_string (tail 1), false)
+  | _ when n > 1 && t.[0] = 'c' ->
+    (match String.split_on_char '_' (tail 1) with
+     | [op; c] -> RCmp (z_of_string op, z_of_string c) | _ -> failwith "route")
+  | _ -> failwith "route"
+
 let dispatch cmd a =
   match cmd with
+  | "sf_routes" ->
+    let m = z_of_string a.(0) in
+    let bs = bytes_of_tok a.(1) in
+    String.concat ";" (List.map (fun t ->
+        match sf_route m bs (parse_route t) with Some vs -> tok_of_zlist vs | None -> "none") (String.split_on_char ',' a.(2)))
   | "sf_hist" ->
     let fmt = z_of_string a.(0) in
     let r = parse_cols a.(1) in
